@@ -34,3 +34,32 @@ Proof.
   - eexists _, _. split; [vm_compute; reflexivity|]. vm_compute. repeat split; congruence.
   - intros host cap m st. repeat split; vm_compute; reflexivity.
 Qed.
+
+(** a counting loop: local 1 += local 0, local 0 -= 1, until local 0 = 0 (back edge [br 0], exit
+    [br_if 1] out of the loop and the block); then a guarded [unreachable] *)
+Definition loop_body : list instr :=
+  [ Block None
+      [ Loop None
+          [ Basic (BLocalGet 0); Basic (BEqz T_i32); Basic (BBrIf 1);
+            Basic (BLocalGet 1); Basic (BLocalGet 0); Basic (BBinop T_i32 Add); Basic (BLocalSet 1);
+            Basic (BLocalGet 0); Basic (BConst T_i32 1); Basic (BBinop T_i32 Sub); Basic (BLocalSet 0);
+            Basic (BBr 0) ] ];
+    Basic (BLocalGet 1); Basic (BConst T_i32 100); Basic (BRelop T_i32 GtU);
+    If None [ Basic BUnreachable ] [] ].
+
+Lemma ex_loop :
+  blocks_ok 2 blk_cx loop_body = true
+  /\ (exists v' sF, compile_ops blk_cx (flatten_body loop_body) (init_vstate None) (init_fstate 2) = Some (v', sF)
+       /\ c_bp sF = [] /\ c_stack sF = []
+       /\ c_next sF < 2147483648 /\ Z.of_nat (length (c_consts sF)) < 2147483648
+       /\ Z.of_nat (length (c_out sF ++ [IReturn])) < 4294967296)
+  /\ (forall host cap m st,
+        exec_instr host cap m 200 st [VI32 4; VI32 0] [] (Block None loop_body) = RNormal st [VI32 0; VI32 10] []
+        /\ exec_instr host cap m 200 st [VI32 0; VI32 7] [] (Block None loop_body) = RNormal st [VI32 0; VI32 7] []
+        /\ exec_instr host cap m 200 st [VI32 20; VI32 0] [] (Block None loop_body) = RTrap
+        /\ exec_instr host cap m 20 st [VI32 20; VI32 0] [] (Block None loop_body) = RFuel).
+Proof.
+  split; [vm_compute; reflexivity|]. split.
+  - eexists _, _. split; [vm_compute; reflexivity|]. vm_compute. repeat split; congruence.
+  - intros host cap m st. repeat split; vm_compute; reflexivity.
+Qed.
